@@ -321,6 +321,7 @@ def reset():
   lp._timers = []
   lp._greenlets = []
   lp._now = vloop.EPOCH
+  lp.wall_offset = 0.0
   lp.errors = []
   lp.callbacks_run = 0
   lp.log_errors = False
@@ -334,7 +335,7 @@ def reset():
     old._worker = _DeadWorker()
     old._queue = []
   del _EXTRA_TQS[:]
-  tq.GLOBAL_TIMER_QUEUE = tq.TimerQueue(time_source=lp.now)
+  tq.GLOBAL_TIMER_QUEUE = tq.TimerQueue(time_source=lp.wall)      # time.time in the library; equal to lp.now unless a scenario steps the wall clock
   tq.LOW_RESOLUTION_TIME_SOURCE = tq.LowResolutionTime()
   tq.LOW_RESOLUTION_TIMER_QUEUE = tq.TimerQueue(
       time_source=tq.LOW_RESOLUTION_TIME_SOURCE.Get, resolution=1)
